@@ -1656,6 +1656,9 @@ namespace avel {
 
     [[nodiscard]]
     AVEL_FINL div_type<vec2x64u> div(vec2x64u numerator, vec2x64u denominator) {
+        // A zero divisor must not trap; the result of that lane is unspecified
+        denominator = blend(denominator == vec2x64u{0}, vec2x64u{1}, denominator);
+
         auto n0 = extract<0>(numerator);
         auto n1 = extract<1>(numerator);
 
